@@ -392,6 +392,13 @@ func RunWorker(cfg WorkerConfig) int {
 			continue
 		}
 
+		if os.Getenv("VERIF_SURVEY") != "" {
+			// development: count unlisted signatures instead of shrinking and reporting them.
+			ctx.Count("survey|"+v.Sig, 1)
+
+			continue
+		}
+
 		if vioSigs[key] {
 			ctx.Count("violations_duplicate_signature", 1)
 
